@@ -1,6 +1,7 @@
 use crate::{Failure, Rng};
 use temporal_rs::{Calendar, TimeZone, ZonedDateTime};
-use temporal_rs::options::{DifferenceSettings, RoundingMode, Unit, RoundingIncrement};
+use temporal_rs::options::{DifferenceSettings, Disambiguation, RoundingMode, Unit, RoundingIncrement};
+use temporal_rs::PlainDateTime;
 use temporal_rs::tzdb::FsTzdbProvider;
 use std::panic::catch_unwind;
 
@@ -32,6 +33,17 @@ pub fn search(rng: &mut Rng, budget: u64, fails: &mut Vec<Failure>) {
             cmp!("day_of_year", z.day_of_year(), z.day_of_year_with_provider(&provider));
             cmp!("days_in_month", z.days_in_month(), z.days_in_month_with_provider(&provider));
             cmp!("hours_in_day", z.hours_in_day(), z.hours_in_day_with_provider(&provider));
+            // wall-clock -> zoned through the convenience layer: every disambiguation, ordinary / skipped / repeated times
+            if tzs == "America/New_York" {
+                for (y, mo, d, h, mi) in [(2021, 11, 7, 1, 30), (2021, 3, 14, 2, 30), (2021, 6, 1, 12, 0), (2010, 11, 7, 1, 0), (2010, 3, 14, 2, 59)] {
+                    if let Ok(pdt) = PlainDateTime::try_new(y, mo, d, h, mi, 0, 0, 0, 0, Calendar::default()) {
+                        for dis in [Disambiguation::Compatible, Disambiguation::Earlier, Disambiguation::Later, Disambiguation::Reject] {
+                            let show = |r: temporal_rs::TemporalResult<ZonedDateTime>| r.map(|z| z.epoch_nanoseconds().as_i128());
+                            cmp!("PlainDateTime::to_zoned_date_time", show(pdt.to_zoned_date_time(z.timezone(), dis)), show(pdt.to_zoned_date_time_with_provider(z.timezone(), dis, &provider)));
+                        }
+                    }
+                }
+            }
             // difference operations: every largest unit, directed rounding modes, both directions
             let ns2 = ns + rng.range(-40_000_000_000_000_000, 40_000_000_000_000_000);
             if let Ok(z2) = ZonedDateTime::try_new(ns2, Calendar::default(), z.timezone().clone()) {
